@@ -16,7 +16,7 @@ var Profiles = map[string]Profile{
 	"C08":  {Kinds: AllKinds, MaxOpts: 4, Cmds: 0.8, Help: 0.5, Wrapper: 0.4, Wild: false, MaxArgv: 7, Modes: []int{0, 1, 2}, Ums: []int{0, 1, 2}, Unknown: 0.5},
 	"C10":  {Kinds: AllKinds, MaxOpts: 5, Cmds: 1.0, Help: 0.5, Wrapper: 0.3, Req: 0.3, Descs: 0.3, Wild: false, MaxArgv: 6, Modes: []int{0, 1, 2}, Ums: []int{0, 2}, Ro: 0.2, Disp: true},
 	"C11":  {Sets: 0.2, Kinds: scalarKinds, MaxOpts: 5, Cmds: 0.8, Help: 0.7, Wrapper: 0.3, Req: 0.5, Env: 0.3, Wild: false, MaxArgv: 5, Modes: []int{0, 1, 2}, Ums: []int{0, 2}, Ro: 0.05, Disp: true, Again: 0.1},
-	"C12":  {Sets: 0.15, Again: 0.1, Kinds: []string{"bool", "string", "int", "float", "sopt", "iopt", "fopt", "incr", "sslice"}, MaxOpts: 4, Cmds: 0.2, Env: 0.9, Valid: 0.2, Wild: true, MaxArgv: 4, Modes: []int{0, 1, 2}, Ums: []int{0, 2}},
+	"C12":  {Sets: 0.15, Again: 0.1, Kinds: []string{"bool", "string", "int", "float", "sopt", "iopt", "fopt", "incr", "sslice"}, MaxOpts: 4, Cmds: 0.2, Env: 0.9, Valid: 0.2, Wild: true, MaxArgv: 4, Modes: []int{0, 1, 2}, Ums: []int{0, 2}, Ro: 0.1},
 	"C17":  {Kinds: AllKinds, MaxOpts: 6, Cmds: 0.9, Help: 0.6, Wrapper: 0.2, Valid: 0.4, Sugg: 0.5, Wild: false, MaxArgv: 4, Modes: []int{0, 1, 2}, Ums: []int{0, 2}, Ro: 0.1, Comp: true, LoneDash: 0.1},
 	"C18":  {Kinds: AllKinds, MaxOpts: 8, Cmds: 0.8, Help: 1.0, Req: 0.3, Env: 0.4, Wrapper: 0.2, Descs: 0.6, MaxArgv: 2, Modes: []int{0, 1, 2}, Ums: []int{0, 2}, Disp: true, HelpCases: true, LoneDash: 0.1},
 	"C19":  {Sets: 0.15, Disp: true, Descs: 0.3, Kinds: AllKinds, MaxOpts: 7, Cmds: 0.7, Help: 0.6, Req: 0.3, Env: 0.4, Wrapper: 0.3, Valid: 0.2, Sugg: 0.3, Wild: true, MaxArgv: 8, Modes: []int{0, 1, 2}, Ums: []int{0, 1, 2}, Ro: 0.2, LoneDash: 0.15, Lower: 0.2, Unknown: 0.3},
